@@ -374,6 +374,11 @@ func (cr *ChunkReader) parseChunkHeaderBytes(header []byte, l *int) (int64, stri
 	if err != nil {
 		return cr.handleRdrErr(err, header)
 	}
+	if sig == "" {
+		// an empty parsedSig means "no chunk pending verification": a chunk
+		// without a signature value would never be verified
+		return 0, "", 0, s3err.GetAPIError(s3err.ErrSignatureDoesNotMatch)
+	}
 
 	// read and parse the final chunk trailer and checksum
 	if chunkSize == 0 {
